@@ -208,6 +208,11 @@ class Prop:
         """return the id of a `known` entry of known_findings.json that this failing case matches"""
         return None
 
+    def extra_evidence(self):
+        """optional: {"obligations": n, "discharged": d, "coverage": {...}} for obligations that are computations
+        re-run on the current source (C19's per-function analysis results)"""
+        return None
+
 
 # ----------------------------------------------------------------------------- proof leg
 def strip_comments(src: str) -> str:
@@ -671,6 +676,11 @@ def write_evidence(prop, tier, seed, proof, run, wall, code, searched):
         "assumptions": list(prop.assumptions),
         "wall_s": round(wall, 2), "violations": 1 if code == 1 else 0,
     }
+    extra = prop.extra_evidence()
+    if extra:
+        ev["coverage"]["obligations"] += int(extra.get("obligations", 0))
+        ev["coverage"]["discharged"] += int(extra.get("discharged", 0))
+        ev["coverage"].update(extra.get("coverage", {}))
     d = VERIF / "evidence"
     d.mkdir(exist_ok=True)
     (d / f"{prop.id}.json").write_text(json.dumps(ev, indent=1, default=str) + "\n")
